@@ -1,4 +1,4 @@
-CONSTANTS MaxBases = 2  MaxRetries = 3  MaxFail = 4  Guard = "compressed"  AtomicFence = TRUE  Variant = "code"
+CONSTANTS MaxBases = 2  MaxRetries = 3  MaxFail = 4  Guard = "all"  AtomicFence = TRUE  Variant = "SwallowSourceError"
 SPECIFICATION Spec
 INVARIANTS TypeOK BodyIntact SourceFaultFails AttemptsBounded SuccessHonest Fallback406 FailoverInOrder GiveUpRule MinAttempts ResponseEncodingOffered
 CHECK_DEADLOCK FALSE
